@@ -188,7 +188,7 @@ CHECKS = {
         "assumptions": GEN_ASSUME + [
             "corruptions decided without a reference parser: (a) truncation at any point where a bracket, paren or brace is open, (b) deletion of any single bracket, paren or brace, (c) removal of the separator and line break between two statements where an operand token is followed by an operand/keyword token; each of these is rejected by every ECMAScript parser (unbalanced delimiters / two operands in a row on one line)",
             "(e) truncation right after a token with which no program can end: an operator, an opening delimiter, a keyword that needs a continuation, or the ) of an if/while/for header", "(d) truncation inside a string or backtick literal, at text level: `x=` + quote + <= K arbitrary ASCII bytes that the reference scanner R2 reads as an unterminated literal (quoted strings: no raw line break)",
-            "general single-token deletion (needs a reference recogniser to decide which results are still valid JavaScript) is outside this check",
+            "(f) deletion of any single token, restricted (Assume) to results that the permissive reference recogniser R3 rejects; R3 accepts a superset of the valid JavaScript writable with the subset's tokens, so its rejections are sound; it is asserted to accept every generated program",
             "positions concrete: token i at line 0, column 2i; 'no earlier than the last intact token' is compared on them",
         ],
         "runs": [
@@ -197,6 +197,9 @@ CHECKS = {
             {"harnesses": [H + "ZZH12Fuse"], "flags": VLQ_REDIRECT, "quick": GEN_Q, "thorough": GEN_T},
             {"harnesses": [H + "ZZH12Literal"], "quick": {"K": 3}, "thorough": {"K": 5}},
             {"harnesses": [H + "ZZH12TruncateIncomplete"], "flags": VLQ_REDIRECT, "quick": GEN_Q, "thorough": GEN_T},
+            # general single-token deletion, invalidity decided by the permissive reference recogniser R3
+            {"harnesses": [H + "ZZH12DeleteAny"], "flags": VLQ_REDIRECT, "quick": dict(GEN_Q, budget=1), "thorough": dict(GEN_Q, stmts=1)},
+            {"harnesses": [H + "ZZH12DeleteAny"], "flags": VLQ_REDIRECT, "quick": dict(GEN_Q, stmts=1, exprstmtonly=1, nofunc=1, binlevels=3), "thorough": dict(GEN_Q, stmts=2, exprstmtonly=1, nofunc=1)},
             # statements ending in object/function values, groups, calls ... fused with the next one
             {"harnesses": [H + "ZZH12Fuse", H + "ZZH12TruncateIncomplete"], "flags": VLQ_REDIRECT,
              "quick": {"budget": 0, "stmts": 2, "palette": 12, "nofunc": 1}, "thorough": {"budget": 1, "stmts": 2, "palette": 6, "maxlist": 1, "nofunc": 1}},
@@ -249,7 +252,7 @@ CHECKS = {
             {"harnesses": [SM + "ZZH9bMappings"], "flags": VLQ_REDIRECT,
              "quick": {"segments": 3}, "thorough": {"segments": 4}},
             {"harnesses": [SM + "ZZH9bMappings"],
-             "quick": {"segments": 2, "small": 20}, "thorough": {"segments": 2, "small": 600}},
+             "quick": {"segments": 2, "small": 20}, "thorough": {"segments": 2, "small": 100}},
             {"harnesses": [SM + "ZZH9cHistory"], "flags": VLQ_REDIRECT,
              "quick": {"ops": 3, "strlen": 2}, "thorough": {"ops": 4, "strlen": 3}},
         ],
